@@ -461,9 +461,10 @@ def check_c22(tier, seed):
     for i, n in enumerate(lens):
         g = dict(gops[(i + seed) % len(gops)]); g.update({'enc_mode': 8, 'logical_processors': 2, 'intra_period_length': g.get('intra_period_length', -1)})
         sim = {'policy': 'starve', 'starve_mod': 7, 'starve_rem': rng.randrange(7), 'seed': rng.randint(1, 10**6)} if i % 2 else {'policy': 'np', 'seed': 1}
-        c = mk(ck, g, {'kind': 'mix', 'seed': rng.randint(1, 999)}, n, (64, 64), g={'pacing': 'each'}, sim=sim, oracles={'decode': 1, 'parse': 1, 'recon_compare': 1, 'order': 1}); c['wall_timeout'] = 3000; c['sim']['step_limit'] = 400000000
+        c = mk(ck, g, {'kind': 'mix', 'seed': rng.randint(1, 999)}, n, (64, 64), g={'pacing': 'each'}, sim=sim, oracles={'decode': 1, 'parse': 1, 'recon_compare': 1, 'order': 1, 'skip_priv': 1}); c['wall_timeout'] = 3000; c['sim']['step_limit'] = 400000000
         cases.append(c)
-    rs = run_batch(ck, cases, 'plain', 'C22', ('C01', 'C03', 'C02', 'TERM'))
+    # "exactly as well as short ones": defects that short streams show too (C02/C03 known findings) are not C22's
+    rs = run_batch(ck, cases, 'plain', 'C22', ('C01', 'C03', 'TERM'))
     for c, r in zip(cases, rs):
         mo = max([f['oh'] for fl in (r.get('frames') or []) for f in fl] + [0])
         if r.get('npackets', 0) > 128: ck.ev.probe('order_hint_wrapped')
